@@ -684,6 +684,9 @@ func runOnce(c C07Case) (v verdict) {
 			}
 			pl.proxy.Arm(Plan{Kind: "cut", Dir: d, K: ft.K})
 			pl.armed = true
+		case "dying":
+			pl.proxy.Arm(Plan{Kind: "dying", Bytes: partialFrame(ft.K)})
+			pl.armed = true
 		case "wrongtype":
 			pl.proxy.Arm(Plan{Kind: "wrongtype", Type: byte(ft.Type)})
 			pl.armed = true
@@ -749,7 +752,10 @@ func runOnce(c C07Case) (v verdict) {
 				v.fail = fmt.Sprintf("clause 5: plugin %02d was invoked although plugin %02d before it had failed the request with an error", pl.spec.Idx, vetoer.spec.Idx)
 				return
 			}
-			if ft.Kind == "close" && ft.When == "before" {
+			if (ft.Kind == "close" && ft.When == "before") || ft.Kind == "dying" {
+				if ft.Kind == "dying" {
+					pl.proxy.CloseNow() // it dies now, the incomplete frame stays incomplete
+				}
 				struck = append(struck, pl) // its connection is gone although the request never got to it
 			} else {
 				survivors = append(survivors, pl)
@@ -783,6 +789,10 @@ func runOnce(c C07Case) (v verdict) {
 				b = band(ft.K)
 			}
 			v.classes = append(v.classes, "cut:"+ft.Dir+":"+b)
+		case "dying":
+			// struck from the moment the incomplete frame is on the wire; the connection is
+			// closed when the request arrives (if it gets that far)
+			isStruck, isDuring = true, pl.rep.Fired
 		case "wrongtype", "undecodable":
 			isStruck, isDuring = pl.rep.Consumed, pl.rep.Consumed
 		case "garbage":
@@ -818,6 +828,38 @@ func runOnce(c C07Case) (v verdict) {
 		v.overload = fmt.Sprintf("request took %v with %d plugin(s) expected to time out", res.dur, mayTime)
 		return
 	}
+	// ... and the same per plugin: the time from one handler entry to the next (or to the end of
+	// the request) is that plugin's round trip plus the delivery of the next request. A plugin
+	// that hangs costs one timeout, forged bytes cost nothing or one timeout, everybody else
+	// answers at once. A larger gap means a healthy plugin may have been late by machine load
+	// (and then is dropped by design), so nothing is concluded from such a run.
+	{
+		type mark struct {
+			at      time.Duration
+			allowed bool // this plugin may have cost one request timeout
+			must    bool // ... and certainly did (hang)
+		}
+		marks := []mark{{at: mainStart}}
+		for _, pl := range f.plugs {
+			for _, e := range f.history() {
+				if e.Idx == pl.spec.Idx && e.Tag == mainTag {
+					k := pl.spec.Fault.Kind
+					marks = append(marks, mark{at: e.At, allowed: k == "hang" || (k == "garbage" && pl.rep.Consumed), must: k == "hang"})
+				}
+			}
+		}
+		marks = append(marks, mark{at: mainStart + res.dur})
+		for i := 0; i+1 < len(marks); i++ {
+			g := marks[i+1].at - marks[i].at
+			if marks[i].allowed && (marks[i].must || g >= ReqTimeout) {
+				g -= ReqTimeout
+			}
+			if g > ReqTimeout/4 {
+				v.overload = fmt.Sprintf("gap of %v after handler entry %d of the request", marks[i+1].at-marks[i].at, i)
+				return
+			}
+		}
+	}
 
 	// --- clause 5 / clause 3: error and response
 	leavesGot := leaves(res.resp)
@@ -839,6 +881,10 @@ func runOnce(c C07Case) (v verdict) {
 			return
 		}
 	} else {
+		if res.err != nil && ev.Known(KnownD12) && len(during) > 0 && strings.Contains(res.err.Error(), "unexpected EOF") {
+			v.excluded = "known:" + KnownD12
+			return
+		}
 		if res.err != nil {
 			who := "no plugin failed"
 			if len(struck) > 0 {
@@ -977,8 +1023,28 @@ func runOnce(c C07Case) (v verdict) {
 	return
 }
 
+// partialFrame is the first k bytes of a 72-byte multiplexer frame on the runtime service
+// connection (the one plugins use for their own requests to the runtime).
+func partialFrame(k int) []byte {
+	if k < 1 {
+		k = 1
+	}
+	if k > 71 {
+		k = 71
+	}
+	body := make([]byte, 64)
+	for i := range body {
+		body[i] = byte(i)
+	}
+	// a ttRPC request header for 54 bytes on stream 1, then filler
+	copy(body, ttrpcMsg(54, 1, 1, 0, nil))
+	return frame(2, body)[:k]
+}
+
 func describe(ft Fault) string {
 	switch ft.Kind {
+	case "dying":
+		return fmt.Sprintf("died on the request's arrival with %d bytes of an own frame sent", ft.K)
 	case "cut":
 		return fmt.Sprintf("cut %s after %d bytes", ft.Dir, ft.K)
 	case "close":
